@@ -203,7 +203,7 @@ func genC12(t *rapid.T) C12Case {
 	switch k := rapid.IntRange(0, 9).Draw(t, "kind"); {
 	case k <= 4:
 		c.Kind = "dec"
-		c.Entry = rapid.SampledFrom([]string{"parse", "parse", "setstring", "parsedecimal", "unmarshaltext", "scan"}).Draw(t, "entry")
+		c.Entry = rapid.SampledFrom([]string{"parse", "parse", "setstring", "parsedecimal", "unmarshaltext", "scan", "scanf"}).Draw(t, "entry")
 		rp := int(c.P)
 		if rp == 0 {
 			rp = 34
@@ -284,6 +284,19 @@ func c12Call(c C12Case, z *decimal.Decimal) (d *decimal.Decimal, base int, err e
 		_, err = fmt.Sscan(c.S, z)
 		if err != nil {
 			return nil, 0, err
+		}
+		return z, 0, nil
+	case "scanf":
+		// the literal directly followed by a separator and a second number: Scan must stop exactly where the
+		// number ends and leave the rest to the format
+		sep := []string{"-", "+", ":", ",", "/", "-"}[len(c.S)%6]
+		z2 := new(decimal.Decimal)
+		n, e := fmt.Sscanf(c.S+sep+"7.5", "%v"+sep+"%v", z, z2)
+		if e != nil {
+			return nil, 0, e
+		}
+		if want := new(decimal.Decimal).SetInt64(75); n != 2 || z2.Cmp(want.SetMantExp(want, -1)) != 0 {
+			return nil, 0, fmt.Errorf("Sscanf(%q): %d items, second one %v (want 7.5)", c.S+sep+"7.5", n, z2)
 		}
 		return z, 0, nil
 	}
@@ -572,7 +585,7 @@ func checkC12Mixed(c C12Case, o *h.Obs, got h.Snap, err error, wantPrec uint) *h
 	return nil
 }
 
-const ruleC12 = "rapid-generated inputs of three kinds. (dec) base-10 literals of the documented grammar with the value known by construction: sign, digits split around the point anywhere, leading/trailing zeros, '_' separators in legal positions, e/E exponents over the whole int32 range and beyond, up to 600 (quick) / 3000 (thorough) digits with rounding patterns; through Parse, SetString, ParseDecimal, UnmarshalText and Scan (fmt.Sscan with surrounding blanks); receiver precision 0 or 1..80, six modes. Oracle: literal's exact value rounded once (value, accuracy, precision 34 if it was 0, base 10); scaled exponent outside int32 => error. (any) literals in base 2/8/16 or with p exponents, one- and two-character mutations of valid literals (deleted/inserted/replaced/duplicated characters, misplaced '_'), short strings over the alphabet of number characters, a list of hostile constants: acceptance and detected base must coincide with math/big Float.Parse (compared when the exponent field is <= 10000 in magnitude), the value must be exact when its decimal expansion fits the precision and within 1 ulp of the correctly rounded value otherwise (exact rational taken from math/big at a precision that makes it exact). (mixed) binary/octal mantissas with fractional digits and a decimal e exponent over the whole int32 range and at its ends: value = exact binary mantissa (math/big) x 10^e with the range rule (underflow to a signed zero, overflow to infinity), exact when representable, 1 ulp otherwise; rejection accepted only within 80 of a range end. (expfield) short mantissas with exponent fields at the edges of int64 and int32 (+-2^63, +-(2^63-1), -2^63-1, 2^64, +-2^32, +-2^31, twenty nines, zero-padded fields): a field that does not fit an int64 must be rejected, a zero mantissa with a valid field (e or p) is a signed zero, a non-zero base-10 literal is accepted exactly when its scaled exponent lies in the int32 range; a non-zero mantissa with a p exponent is rejected when the exponent lies outside the int32 range (as math/big does) and otherwise accepted with a value of the right order of magnitude (fields from -2^63 to 2^63-1, +-7.2e9, +-2^32, +-(2^31+100), +-2147483000, +-10^9). Always: no panic, err != nil => returned *Decimal is nil, receiver canonical. Non-trivial = an accepted literal that needs rounding, or a rejected string; distinct by case."
+const ruleC12 = "rapid-generated inputs of three kinds. (dec) base-10 literals of the documented grammar with the value known by construction: sign, digits split around the point anywhere, leading/trailing zeros, '_' separators in legal positions, e/E exponents over the whole int32 range and beyond, up to 600 (quick) / 3000 (thorough) digits with rounding patterns; through Parse, SetString, ParseDecimal, UnmarshalText and Scan (fmt.Sscan with surrounding blanks; fmt.Sscanf with the literal directly followed by -, +, :, comma or / and a second number); receiver precision 0 or 1..80, six modes. Oracle: literal's exact value rounded once (value, accuracy, precision 34 if it was 0, base 10); scaled exponent outside int32 => error. (any) literals in base 2/8/16 or with p exponents, one- and two-character mutations of valid literals (deleted/inserted/replaced/duplicated characters, misplaced '_'), short strings over the alphabet of number characters, a list of hostile constants: acceptance and detected base must coincide with math/big Float.Parse (compared when the exponent field is <= 10000 in magnitude), the value must be exact when its decimal expansion fits the precision and within 1 ulp of the correctly rounded value otherwise (exact rational taken from math/big at a precision that makes it exact). (mixed) binary/octal mantissas with fractional digits and a decimal e exponent over the whole int32 range and at its ends: value = exact binary mantissa (math/big) x 10^e with the range rule (underflow to a signed zero, overflow to infinity), exact when representable, 1 ulp otherwise; rejection accepted only within 80 of a range end. (expfield) short mantissas with exponent fields at the edges of int64 and int32 (+-2^63, +-(2^63-1), -2^63-1, 2^64, +-2^32, +-2^31, twenty nines, zero-padded fields): a field that does not fit an int64 must be rejected, a zero mantissa with a valid field (e or p) is a signed zero, a non-zero base-10 literal is accepted exactly when its scaled exponent lies in the int32 range; a non-zero mantissa with a p exponent is rejected when the exponent lies outside the int32 range (as math/big does) and otherwise accepted with a value of the right order of magnitude (fields from -2^63 to 2^63-1, +-7.2e9, +-2^32, +-(2^31+100), +-2147483000, +-10^9). Always: no panic, err != nil => returned *Decimal is nil, receiver canonical. Non-trivial = an accepted literal that needs rounding, or a rejected string; distinct by case."
 
 var propC12 = &h.Prop[C12Case]{ID: "C12", Rule: ruleC12, Gen: genC12, Check: checkC12, Matchers: map[string]func(C12Case) bool{}}
 
@@ -631,6 +644,27 @@ func TestC12Grid(t *testing.T) {
 					cnt++
 				}
 			}
+		}
+	}
+	// one literal whose binary exponent exceeds 2^20 while the value is still representable: 5^7000 p(2^20+7024) is
+	// 10^7000 x 2^1048600, 315 659 digits, into a receiver that holds them all (ToZero and ToPositiveInf: Exact)
+	{
+		const k, e = 7000, 1048600
+		lit := new(big.Int).Exp(big.NewInt(5), big.NewInt(k), nil).String() + "p" + strconv.Itoa(e+k)
+		want := model.FromInt(new(big.Int).Lsh(big.NewInt(1), e), k)
+		for _, m := range []model.Mode{model.ToZero, model.ToPositiveInf} {
+			z := mkRecv(uint(len(want.Digits))+40, uint8(m))
+			d, _, err := z.Parse(lit, 10)
+			got := h.Read(z)
+			o := &h.Obs{}
+			o.Label("grid:giant-binary-exponent")
+			o.NonTrivial()
+			c := C12Case{Kind: "grid-giant", Entry: "parse", S: "5^7000 p1055600", P: uint(len(want.Digits)) + 40, M: uint8(m)}
+			if err != nil || d != z || got.Malformed != "" || !got.Val().Equal(want) || got.Acc != 0 {
+				h.ReportGridFail(t, "C12", h.Failf("value", "Parse(<5^%d>p%d) at precision %d %v: err=%v, accuracy %v, %d digits; want the exact value 10^%d x 2^%d (%d digits)", k, e+k, c.P, m, err, model.Acc(got.Acc), len(got.Digits), k, e, len(want.Digits)), mustJSON(c))
+			}
+			h.RecordGrid("C12", o, c)
+			cnt++
 		}
 	}
 	h.AddExtra("C12", "tight_binary_exponent_cases", cnt)
